@@ -833,3 +833,13 @@ Definition inflight (s : state) : list event :=
       | _ => []
       end).
 
+
+(* the schedule hypothesis of the theorems (ProofsMain.sched_ok), in the form the acceptor evaluates before every
+   event of a real run: when the snap directory purge decides to remove a file, fewer snapshot goroutines are
+   between "snap file written" and "WAL marker written" than snap files it keeps *)
+Definition R_SCHED : N := 106.      (* the schedule hypothesis of the theorems does not hold at this event *)
+Definition sched_holds (c : config) (s : state) (ev : event) : bool :=
+  match ev with
+  | EvPgBefore 4 => Nat.ltb (length (filter (fun q => sn_pc_eqb (snd q) SnFile) (sns s))) (eff_keep_snap c)
+  | _ => true
+  end.
